@@ -116,7 +116,7 @@ def items(G):
         if len(cs) < 3:
             _unlocated("ControlBlock.parse comparisons")
         return [(op, v) for op, v, _, _ in cs[:3]], cs[0][2]
-    yield G.strnat("Tx", "cbParseCmp", cb_cmp)
+    yield G.strnat("Tx", "txCbParseCmp", cb_cmp)
 
     # do the midstate helpers memoise (`if self._hash_prevouts is None:`)?  F05d
     def memo():
